@@ -297,14 +297,14 @@ namespace awkward {
     if (hasnull_) {
       return std::make_shared<IndexedOptionArray64>(
         Identities::none(),
-        array_.get()->content().get()->parameters(),
+        array_.get()->parameters(),
         index,
         array_.get()->content());
     }
     else {
       return std::make_shared<IndexedArray64>(
         Identities::none(),
-        array_.get()->content().get()->parameters(),
+        array_.get()->parameters(),
         index,
         array_.get()->content());
     }
@@ -345,14 +345,14 @@ namespace awkward {
     if (hasnull_) {
       return std::make_shared<IndexedOptionArray64>(
         Identities::none(),
-        array_.get()->content().get()->parameters(),
+        array_.get()->parameters(),
         index,
         array_.get()->content());
     }
     else {
       return std::make_shared<IndexedArray64>(
         Identities::none(),
-        array_.get()->content().get()->parameters(),
+        array_.get()->parameters(),
         index,
         array_.get()->content());
     }
@@ -393,14 +393,14 @@ namespace awkward {
     if (hasnull_) {
       return std::make_shared<IndexedOptionArray64>(
         Identities::none(),
-        array_.get()->content().get()->parameters(),
+        array_.get()->parameters(),
         index,
         array_.get()->content());
     }
     else {
       return std::make_shared<IndexedArray64>(
         Identities::none(),
-        array_.get()->content().get()->parameters(),
+        array_.get()->parameters(),
         index,
         array_.get()->content());
     }
@@ -443,7 +443,7 @@ namespace awkward {
     Index64 index(index_.ptr(), 0, index_.length(), kernel::lib::cpu);
     return std::make_shared<IndexedOptionArray64>(
       Identities::none(),
-      array_.get()->content().get()->parameters(),
+      array_.get()->parameters(),
       index,
       array_.get()->content());
   }
@@ -484,7 +484,7 @@ namespace awkward {
     Index64 index(index_.ptr(), 0, index_.length(), kernel::lib::cpu);
     return std::make_shared<IndexedOptionArray64>(
       Identities::none(),
-      array_.get()->content().get()->parameters(),
+      array_.get()->parameters(),
       index,
       array_.get()->content());
   }
